@@ -36,18 +36,19 @@ func TestMain(m *testing.M) {
 
 // ---- observation points
 
-var wsConns atomic.Int64 // connections seen by the loopback listener (web seed or its proxy)
-var lnAddr string
+var wsConns atomic.Int64 // web-seed fetch attempts: direct connections to W, or SOCKS5 CONNECTs to W through P
+var lnAddr string       // W: the web seed
+var proxyAddr string    // P: the SOCKS5 proxy of proxied torrents
 
 func startListener() {
-	ln, err := net.Listen("tcp", "127.0.0.1:0")
+	w, err := net.Listen("tcp", "127.0.0.1:0")
 	if err != nil {
 		panic(err)
 	}
-	lnAddr = ln.Addr().String()
+	lnAddr = w.Addr().String()
 	go func() {
 		for {
-			c, err := ln.Accept()
+			c, err := w.Accept()
 			if err != nil {
 				return
 			}
@@ -55,9 +56,61 @@ func startListener() {
 			c.Close()
 		}
 	}()
+	p, err := net.Listen("tcp", "127.0.0.1:0")
+	if err != nil {
+		panic(err)
+	}
+	proxyAddr = p.Addr().String()
+	wport := w.Addr().(*net.TCPAddr).Port
+	go func() {
+		for {
+			c, err := p.Accept()
+			if err != nil {
+				return
+			}
+			// just enough SOCKS5 to learn the CONNECT target, then hang up
+			func() {
+				defer c.Close()
+				c.SetDeadline(time.Now().Add(5 * time.Second))
+				hdr := make([]byte, 2)
+				if _, err := readFull(c, hdr); err != nil || hdr[0] != 5 {
+					return
+				}
+				if _, err := readFull(c, make([]byte, int(hdr[1]))); err != nil {
+					return
+				}
+				c.Write([]byte{5, 0})
+				req := make([]byte, 4)
+				if _, err := readFull(c, req); err != nil {
+					return
+				}
+				var alen int
+				switch req[3] {
+				case 1:
+					alen = 4
+				case 4:
+					alen = 16
+				case 3:
+					l := make([]byte, 1)
+					if _, err := readFull(c, l); err != nil {
+						return
+					}
+					alen = int(l[0])
+				}
+				rest := make([]byte, alen+2)
+				if _, err := readFull(c, rest); err != nil {
+					return
+				}
+				port := int(rest[alen])<<8 | int(rest[alen+1])
+				if port == wport {
+					wsConns.Add(1)
+				}
+			}()
+		}
+	}()
 	// create the HTTP clients outside any bubble
 	httpclient.Get("", "")
-	httpclient.Get("", "socks5://"+lnAddr)
+	httpclient.Get("", "socks5://"+proxyAddr)
 }
 
 type annRec struct {
@@ -165,7 +218,7 @@ func run(c caseSpec) (fail string, labels map[string]bool, hist []string) {
 	}()
 	proxy := ""
 	if c.proxied {
-		proxy = "socks5://" + lnAddr
+		proxy = "socks5://" + proxyAddr
 	}
 	g := sim.Geometry{PieceSize: 16384, Length: 16384 * 6, Seed: 99, Name: "t"}
 	_, info, _, _ := sim.Metainfo(g)
